@@ -1019,6 +1019,13 @@ fn app_step(w: &mut World, st: &mut St, n: usize, tape: &mut Tape) -> Result<boo
                     s.arr_ptr = first_pending.unwrap_or(s.arrivals.len());
                     w.stats.inc("dgram.close-rebind");
                     did = true;
+                } else if tape.chance(1, 5) {
+                    // the application goes through its address list without changing it (what a configuration
+                    // reload does): the neighbour cache is flushed, nothing that is queued or half sent may suffer
+                    let iface = &mut w.nodes[n].iface;
+                    guard("Interface::update_ip_addrs", || iface.update_ip_addrs(|_| {}))?;
+                    w.stats.inc("dgram.addresses-reapplied");
+                    did = true;
                 }
             }
         }
